@@ -5,7 +5,7 @@ from vlib.runner import Group, run_property
 SUM = ["deps.dev/util/semver.compare", "(deps.dev/util/resolve/internal/attr.Set).Compare",
        "(*deps.dev/util/semver.Constraint).Match", "(deps.dev/util/semver.System).Compare"]
 NPM, MAVEN, PYPI = 3, 6, 7
-NREQ = {NPM: 9, MAVEN: 5, PYPI: 6}
+NREQ = {NPM: 12, MAVEN: 5, PYPI: 6}
 
 
 def run(tier):
@@ -13,24 +13,36 @@ def run(tier):
     base = dict(unwind=120, timeout_s=600 if tier == "quick" else 3000, summarise=SUM, max_witnesses=1, witness_every=1000,
                 panic_is_violation=True)
     for sys in (NPM, MAVEN, PYPI):
-        vts = [0, 1, 5, 6] if sys == NPM else [0, 1]
+        vts = [0, 1, 5, 6, 7] if sys == NPM else [0, 1]
         if tier != "quick":
-            vts = [0, 1, 2, 3, 4, 5, 6] if sys == NPM else [0, 1, 2, 4]
+            vts = [0, 1, 2, 3, 4, 5, 6, 7] if sys == NPM else [0, 1, 2, 4]
         ks = [2, 3] if tier == "quick" else [2, 3, 4]
         if tier == "quick" and sys != NPM:
             ks = [2]
-        rts = range(NREQ[sys]) if tier != "quick" else {NPM: [0, 3, 5, 7], MAVEN: [0, 1, 3], PYPI: [0, 2, 4]}[sys]
+        rts = range(NREQ[sys]) if tier != "quick" else {NPM: [0, 3, 5, 9, 11], MAVEN: [0, 1, 3], PYPI: [0, 2, 4]}[sys]
+        def add(k, vt, rt, latest, sortcheck):
+            # the second list is a non-trivial permutation of the first: a swap for two elements,
+            # rotation and reversal (which swaps the first two) for more
+            p = {"sys": sys, "k": k, "rt": rt, "latest": latest, "sortcheck": sortcheck,
+                 "next": 1 if latest != 1 else -1, "rot": 1, "rev": 0 if k == 2 else 1}
+            for i, t in enumerate(vt):
+                p["vt%d" % i] = t
+            jobs.append(dict(base, harness="VerifC12Match", params=p))
+
         for k in ks:
             combos = list(itertools.combinations_with_replacement(vts, k))
-            if tier == "quick":
-                combos = combos[::2] if k == 2 else combos[::5]
+            krts = list(rts)
+            if tier == "quick" and k == 3:
+                combos = combos[::3]
+                krts = [r for r in krts if r != 9][:3]  # the two-comparator template is run on its own family below
             for vt in combos:
-                for rt in rts:
+                for rt in krts:
                     for latest in ([-1, 0, k - 1] if sys == NPM else [-1]):
-                        p = {"sys": sys, "k": k, "rt": rt, "latest": latest, "next": 1 if latest != 1 else -1, "rot": 1, "rev": 1}
-                        for i, t in enumerate(vt):
-                            p["vt%d" % i] = t
-                        jobs.append(dict(base, harness="VerifC12Match", params=p))
+                        add(k, vt, rt, latest, 1 if rt == krts[0] else 0)
+        if sys == NPM and tier == "quick":
+            # a range that can select prereleases only, over lists with two prereleases and a release
+            for vt, latest in [((0, 1, 1), 1), ((0, 1, 1), 2), ((1, 0, 1), 0)]:
+                add(3, vt, 9, latest, 0)
     return run_property("C12", tier, [Group("resolve", jobs)], required_covers=["some version matched", "some version rejected"],
                         assumptions=["version and requirement strings are template instances with symbolic digits/letters; list order: rotation+reversal"],
                         bounds={"list_len": max(ks)})
